@@ -474,13 +474,18 @@ def scandat(repofiles):
         if e.errno != errno.ENOENT:
             raise
     else:
-        # We only care about the last one.
+        # We only care about the last one that holds data: an empty
+        # increment (written when the file had grown by nothing but an
+        # unfinished transaction) carries the checksum of nothing, which
+        # every file matches, so it cannot show that the file was packed.
         lines = fp.readlines()
         fp.close()
-        if lines:
-            fn, startpos, endpos, sum = lines[-1].split()
+        for line in reversed(lines):
+            fn, startpos, endpos, sum = line.split()
             startpos = int(startpos)
             endpos = int(endpos)
+            if endpos > startpos:
+                break
 
     return fn, startpos, endpos, sum
 
